@@ -264,3 +264,7 @@ seed(116, "Mantis parallel vec128: the backward rounds call mantis_shift_rows in
      ("src/mantis-parallel-vec128.c", "        mantis_shift_rows_inverse(&state);", "        mantis_shift_rows(&state);"))
 seed(117, "scalar Mantis, 32-bit word path only: the backward rounds forget the tweak in the second half of the state", ["C03.R7"],
      ("src/mantis-cipher.c", "        state.lrow[0] ^= k1.lrow[0] ^ tweak.lrow[0];\n        state.lrow[1] ^= k1.lrow[1] ^ tweak.lrow[1];\n#endif\n\n        /* Add the round constant */\n#if RC_ROW_SIZE == 64\n        --r;", "        state.lrow[0] ^= k1.lrow[0] ^ tweak.lrow[0];\n        state.lrow[1] ^= k1.lrow[1];\n#endif\n\n        /* Add the round constant */\n#if RC_ROW_SIZE == 64\n        --r;"))
+seed(118, "skinny128 parallel vec128: one step of row 3 in the interleaved four-way S-box reads row 4", ["C03.R8"],
+     ("src/skinny128-parallel-vec128.c", "    x3 ^= ((~((x3 >> 2) | (x3 >> 3))) & 0x11111111U);", "    x3 ^= ((~((x3 >> 2) | (x4 >> 3))) & 0x11111111U);"))
+seed(119, "skinny64 parallel vec128: row 0 'rotated' by 0 for symmetry - x << 16 on 16-bit lanes (GCC keeps x, Clang -O2 folds to poison)", ["C12.R8"],
+     ("src/skinny64-parallel-vec128.c", "        row1 = skinny64_rotate_right(row1, 4);", "        row0 = skinny64_rotate_right(row0, 0);\n        row1 = skinny64_rotate_right(row1, 4);"))
